@@ -72,6 +72,21 @@ def program(draw, tier):
         nb = draw(N.edit_notebook(pool[draw(st.integers(0, len(pool) - 1))], "P%d" % k, max_steps=3, min_steps=1))
         nb["metadata"]["grid"] = copy.deepcopy(draw(st.sampled_from(N.SHAPES)))
         pool.append(nb)
+    if draw(st.sampled_from(range(6))) == 3:
+        # a notebook whose metadata has well over a thousand distinct paths (ipywidgets state of a few hundred models), and an edit of it
+        wide = copy.deepcopy(base)
+        wide["metadata"]["widgets"] = {"model_%03d" % i: {"model_name": "SliderModel", "state": {"value": i % 7, "description": "s%d" % i}} for i in range(400)}
+        wide2 = copy.deepcopy(wide)
+        wide2["metadata"]["widgets"]["model_007"]["state"]["value"] = 99
+        wide2["metadata"]["grid"] = copy.deepcopy(draw(st.sampled_from(N.SHAPES)))
+        # ... and a copy of the first notebook that differs from it in cell metadata only
+        cm = copy.deepcopy(base)
+        for c in cm["cells"]:
+            c["metadata"] = dict(c["metadata"], vp_touched=True)
+        pool += [wide, wide2, cm]
+        wide_at = len(pool) - 3
+    else:
+        wide_at = None
     # families (base, L, R) in which both sides insert the same new cell at one position, the two copies differing in ONE category
     families = []
     for k in range(draw(st.sampled_from([0, 1, 2, 2]))):
@@ -110,6 +125,20 @@ def program(draw, tier):
             qs = [s for s in steps if s[0] in ("diff", "merge")]
             if qs:
                 steps.append(copy.deepcopy(draw(st.sampled_from(qs))))
+    if wide_at is not None and draw(st.sampled_from([True, True, False])):
+        # ignore options on metadata, then the diff that walks the thousand metadata paths, then a diff that depends on those options
+        # (the notebook-level metadata stays visible, or the wide diff would not be walked at all)
+        conf = draw(st.sampled_from([["ignores", {"/cells/*/metadata": True}], ["ignores", {"/cells/*/metadata": True, "/cells/*/outputs/*/metadata": True}],
+                                     ["ignores", {"/cells/*/metadata": True, "/cells/*/id": True}], ["targets", [True, True, True, False, True, True]]]))
+        at = draw(st.integers(0, len(steps)))
+        steps[at:at] = [conf, ["diff", wide_at, wide_at + 1], ["diff", 0, wide_at + 2], ["diff", wide_at + 1, 0]]
+    for f in families:
+        if draw(st.booleans()):
+            # the same triple merged twice in a row under two option sets that differ in one option
+            x = draw(S.strategy_args(renderers=["git"]))
+            y = dict(x, transients=not x.get("transients", True)) if draw(st.booleans()) else dict(x, output=draw(st.sampled_from([None, "use-local", "remove"])))
+            at = draw(st.integers(0, len(steps)))
+            steps[at:at] = [["merge", f[0], f[1], f[2], x], ["merge", f[0], f[1], f[2], y]]
     if not any(s[0] in ("diff", "merge") for s in steps):
         steps.append(["diff", 0, n - 1])
     return {"pool": pool, "steps": steps, "config_ignore": cfg, "fresh_check": draw(st.sampled_from([True] + [False] * 39))}
@@ -131,7 +160,20 @@ def insert_family(draw, base, tag):
     if minor >= 5:
         c["id"] = N._fresh_id(used, tag)
     c2 = copy.deepcopy(c)
-    what = draw(st.sampled_from(["outputs", "outputs", "metadata", "source", "details", "id"]))
+    what = draw(st.sampled_from(["outputs", "outputs", "metadata", "source", "details", "id", "delete_vs_rerun", "delete_vs_rerun"]))
+    if what == "delete_vs_rerun" and base["cells"]:
+        # one side deletes a code cell, the other only re-executed it (a transient change): conflict or not depends on the options
+        k = draw(st.integers(0, len(base["cells"]) - 1))
+        cc = {"cell_type": "code", "metadata": {}, "execution_count": 3, "source": "y = rerun(%s)\n" % tag, "outputs": []}
+        if minor >= 5:
+            cc["id"] = N._fresh_id(used, tag + "x")
+        for nb_ in (base, l, r):
+            nb_["cells"].insert(k, copy.deepcopy(cc))
+        del l["cells"][k]
+        r["cells"][k]["execution_count"] = 9
+        if draw(st.booleans()):
+            l, r = r, l
+        return l, r
     if what == "outputs":
         c2["outputs"][0]["text"] = "first line %s\nsecond line changed\n" % tag
     elif what == "metadata":
